@@ -1062,7 +1062,10 @@ static void scen_pair(const struct cfg *c)
 				usleep(15000);
 			    }
 			}
-		    struct xcm_socket *hc_s = xcm_connect(caddr, 0);
+		    struct xcm_attr_map *hm = xcm_attr_map_create();
+		    xcm_attr_map_add_str(hm, "xcm.service", "any");	/* (a byte-stream address needs it) */
+		    struct xcm_socket *hc_s = xcm_connect_a(caddr, hm);
+		    xcm_attr_map_destroy(hm);
 		    char b;
 		    (void)!read(hp[0], &b, 1);	/* until the owner has closed everything */
 		    if (hc_s)
